@@ -170,11 +170,15 @@ Fixpoint p_frames (fuel : nat) (channels bps : N) (bytes : list N) : option (lis
 Definition p_stream_info (r : rd) : option (streaminfo * rd) :=
   olet (si, r) <- read_streaminfo r;
   let bps := i_bps si in
+  (* the placeholders StreamInfo::new leaves in a stream without frames are kept as read *)
+  let blk_unset := (i_min_block si =? 65535) && (i_max_block si =? 0) in
+  let frm_unset := (i_min_frame si =? 16777215) && (i_max_frame si =? 0) in
   if (96000 <? i_rate si) || (bps <? 8) || (25 <? bps) || negb ((bps mod 4 =? 0) || (bps mod 4 =? 1))
-     || (32767 <? i_min_block si) || (32767 <? i_max_block si) || (i_max_block si <? i_min_block si)
-     || (i_max_frame si <? i_min_frame si)
+     || (negb blk_unset && ((32767 <? i_min_block si) || (32767 <? i_max_block si) || (i_max_block si <? i_min_block si)))
+     || (negb frm_unset && (i_max_frame si <? i_min_frame si))
   then None
-  else Some (mkInfo (i_min_block si) (i_max_block si) (i_min_frame si) (i_max_frame si)
+  else Some (mkInfo (i_min_block si) (i_max_block si)
+                    (if frm_unset then 2 ^ 32 - 1 else i_min_frame si) (i_max_frame si)
                     (i_rate si) (i_channels si) bps (i_total si) (i_md5 si), r).
 
 (* one metadata block: (is_last, tag, raw data bytes) *)
